@@ -6,11 +6,11 @@ import props
 def c02(tier):
     q = tier == 'quick'
     plan = [
-        {'kind': 'scope', 'count': 216, 'cfgs': 'plain', 'args': ['l=1', 'mode=enum']},
-        # 54^2 * 4 = 11664 skeletons with two levels: every 11th in quick, all in thorough
-        {'kind': 'scope', 'count': 1061 if q else 11664, 'cfgs': 'plain',
-         'args': ['l=2', 'mode=enum', 'stride=%d' % (11 if q else 1)], 'shards': 2 if q else 12},
-        {'kind': 'scope', 'count': 100 if q else 20000, 'cfgs': 'plain', 'args': ['l=3', 'mode=random'],
+        {'kind': 'scope', 'count': 432, 'cfgs': 'plain', 'args': ['l=1', 'mode=enum']},
+        # 54^2 * 8 = 23328 skeletons with two levels: every 23rd in quick, all in thorough
+        {'kind': 'scope', 'count': 1015 if q else 23328, 'cfgs': 'plain',
+         'args': ['l=2', 'mode=enum', 'stride=%d' % (23 if q else 1)], 'shards': 2 if q else 14},
+        {'kind': 'scope', 'count': 150 if q else 20000, 'cfgs': 'plain', 'args': ['l=3', 'mode=random'],
          'shards': 1 if q else 16},
         {'kind': 'scope', 'count': 60 if q else 6000, 'cfgs': 'plain', 'args': ['l=4', 'mode=random'],
          'shards': 1 if q else 8},
@@ -30,13 +30,13 @@ def c02(tier):
         return {'skeletons_by_levels': {str(k): v for k, v in n.items()},
                 'exhaustive_levels': [1] if q else [1, 2],
                 'exhaustive': False,
-                'space': {'1': 216, '2': 11664, '3': 629856, '4': 34012224}}
+                'space': {'1': 432, '2': 23328, '3': 1259712, '4': 68024448}}
 
     return props.cek_property(
         'C02', tier, plan, relevant,
         'scope skeletons: L nested procedures over a,b,c; per level and name one of parameter / rest parameter / '
-        'internal definition / free; reads before and after closure creation are logged, set! before/after closure '
+        'internal definition / free; the inner closure made by a lambda in a let or by an internal procedure-form definition; reads before and after closure creation are logged, set! before/after closure '
         'creation, closures invoked inside the creator, after it returned and repeatedly (separate activations); '
         'the whole read log is compared with the CEK machine. L=1 exhaustive; L=2 %s; L=3,4 random; closures created in loops'
-        % ('every 11th skeleton' if q else 'exhaustive'),
+        % ('every 23rd skeleton' if q else 'exhaustive'),
         extra_cov=extra)
